@@ -168,6 +168,14 @@ def gen(rng, index, tier):
             case = screen.build_screen_case(rng, rng.choice([16, 32, 32, 64, 64]))
             if case is not None:
                 case['configs'] = script_configs(rng, case)
+                lo, hi = case['screen']['fb_words']
+                plo, phi = case['screen']['pal_words']
+                # native hybrid storage whose flat window ends INSIDE the framebuffer / the palette
+                case['configs'].append({'engine': 'native', 'flat_max_words': rng.randrange(lo + 1, max(lo + 2, hi)),
+                                        'probe': 'off'})
+                if rng.random() < 0.5:
+                    case['configs'].append({'engine': 'native', 'flat_max_words': rng.randrange(plo + 1, max(plo + 2, phi)),
+                                            'probe': 'off', 'last_ops': rng.choice([None, 3])})
                 return case
         return None
     for _ in range(6):
@@ -259,7 +267,7 @@ def run_screen_engine(case, cfg, path):
         files = sorted(frames_dir.glob('frame_*.png')) if frames_dir.exists() else []
         if len(files) != len(scr.frames):
             hashes_ok = False
-        for f, (pix, pal) in zip(files, scr.frames):
+        for f, (pix, pal, _rgb) in zip(files, scr.frames):
             try:
                 w_, h_, rgb = screen.decode_png_rgb(f.read_bytes())
             except Exception:
